@@ -5,6 +5,7 @@ specification's own invariants (the property stated on the design) are checked i
 import json
 import os
 import re
+import subprocess
 
 import fam_history
 from vlib import SPEC, ToolError, icverif, log, tla_tuple_lines, tlc, tlc_stats, validate_trace
@@ -320,6 +321,91 @@ class StylesFam:
                 "exhaustive": True, "spec_properties": ["ReadBack", "NoAliasing"]}
 
 
+class Tokens:
+    PROPS = ["C11"]
+    LEVEL = "exploration"
+    ASSUMPTIONS = ["inputs: every sequence of up to 2 (quick: plus a seeded sample of 12 000 sequences of 3; thorough: all of 3) of the 60 token spellings of Tokens.tla",
+                   "APIs: Parser::parse in A1 and R1C1 mode, Model::set_user_input as formula and as text (+ evaluate, formatted value, content), Model::formula_completion at every cursor, Model::cycle_reference at every cursor and prefix selection, format_number with the text as format code over 11 numbers incl. NaN and infinities; 3 language/locale pairs (thorough: all 30)",
+                   "formulas containing ':' are parsed and stored but not evaluated: a range over whole columns evaluates to a million-cell array per column and does not finish in reasonable time or memory (see DESIGN.md, finding F-C11-1)",
+                   "a call that does not return within 8 s is reported as a timeout; an abort of the process is attributed to the slice of 64 cases being processed"]
+
+    @staticmethod
+    def run(d, tier, seed):
+        import random
+        from vlib import ICVERIF
+        res = {"violations": {"C11": []}}
+        cfg = open(os.path.join(SPEC, "Tokens.cfg")).read()
+        out, st, dt = run_tlc("Tokens.tla", cfg, d, "tokens", workers=8)
+        path = os.path.join(d, "all.ndjson")
+        n = cases_from(out, path)
+        lines = open(path).read().splitlines()
+        short = [l for l in lines if len(json.loads(l)["tokens"]) <= 2]
+        long3 = [l for l in lines if len(json.loads(l)["tokens"]) == 3]
+        if tier == "quick":
+            rnd = random.Random(seed)
+            chosen = short + rnd.sample(long3, min(12000, len(long3)))
+        else:
+            chosen = lines
+        with open(path, "w") as f:
+            f.write("\n".join(chosen) + "\n")
+        odir = os.path.join(d, "out")
+        skip = 0
+        total = {"cases": 0, "checks": 0, "distinct_nontrivial": 0, "samples": [], "timeouts": 0, "aborts": 0}
+        seen = {}
+        for attempt in range(40):
+            for fn in ("TIMEOUT.json", "PROGRESS"):
+                try:
+                    os.remove(os.path.join(odir, fn))
+                except OSError:
+                    pass
+            args = [ICVERIF, "tokens", "--in", path, "--out", odir, "--skip", str(skip)] + (["--thorough"] if tier == "thorough" else [])
+            p = subprocess.run(args, stdout=subprocess.PIPE, stderr=subprocess.STDOUT, timeout=3500)
+            collect(res, "C11", os.path.join(odir, "mismatches.ndjson"), seen)
+            if p.returncode == 0:
+                rr = json.loads([l for l in p.stdout.decode().splitlines() if l.startswith("{")][-1])["result"]
+                for k in ("cases", "checks", "distinct_nontrivial"):
+                    total[k] += rr[k]
+                total["samples"] += rr["samples"]
+                break
+            if p.returncode == 3 and os.path.exists(os.path.join(odir, "TIMEOUT.json")):
+                t = json.load(open(os.path.join(odir, "TIMEOUT.json")))
+                total["timeouts"] += 1
+                sig = f"C11|timeout|{t.get('call', '')}"
+                if sig not in seen:
+                    v = {"signature": sig, "what": f"{t.get('call')} did not return within 8 s on {t.get('text')!r} ({t.get('lang')}/{t.get('locale')})", "count": 1,
+                         "payload": {"property": "C11", "signature": sig, "case": t}}
+                    seen[sig] = v
+                    res["violations"]["C11"].append(v)
+                total["cases"] += t["index"] - skip
+                skip = t["index"]
+                continue
+            # abnormal exit: stack overflow / abort
+            prog = 0
+            try:
+                prog = int(open(os.path.join(odir, "PROGRESS")).read().strip())
+            except Exception:
+                pass
+            total["aborts"] += 1
+            sig = "C11|abort|process"
+            if sig not in seen:
+                v = {"signature": sig, "what": f"the process aborted (exit {p.returncode}) while processing cases {prog}..{prog + 64}", "count": 1,
+                     "payload": {"property": "C11", "signature": sig, "case": {"slice": chosen[max(prog - 1, 0):prog + 64]}}}
+                seen[sig] = v
+                res["violations"]["C11"].append(v)
+            skip = prog + 64
+        res["tlc"] = {"states": st["distinct"], "transitions": st["generated"], "enumerated": n, "executed": len(chosen)}
+        res["run"] = total
+        return res
+
+    @staticmethod
+    def evidence_for(prop, res):
+        r = res["run"]
+        return {"evaluations": r["checks"], "distinct_nontrivial": r["distinct_nontrivial"],
+                "rule": "token sequences enumerated by TLC from Tokens.tla, each spelled out and passed to every listed API under catch_unwind and a watchdog; distinct_nontrivial = distinct token sequences executed.",
+                "samples": r["samples"][:3] or [{"note": "none"}], "states": res["tlc"]["states"], "transitions": res["tlc"]["transitions"],
+                "traces_validated_against_impl": r["cases"], "timeouts": r["timeouts"], "aborts": r["aborts"], "exhaustive": False}
+
+
 def replay_case(prop, path):
     with open(path) as f:
         payload = json.load(f)
@@ -335,7 +421,8 @@ def _wrap(cls, name):
         run = staticmethod(cls.run)
         evidence_for = staticmethod(cls.evidence_for)
         replay = staticmethod(getattr(cls, "replay", replay_case))
+        LEVELS = {p: getattr(cls, "LEVEL", "model_checking") for p in cls.PROPS}
     return (name, M)
 
 
-TABLE = {"C21": _wrap(Calendar, "calendar"), "C22": _wrap(Grid, "grid"), "C23": _wrap(Lang, "lang"), "C34": _wrap(F4, "f4"), "C19": _wrap(NumberInput, "numinput"), "C20": _wrap(NumberFormat, "numformat"), "C09": _wrap(Formula, "formula"), "C29": _wrap(ColAttrs, "colattrs"), "C30": _wrap(StylesFam, "styles")}
+TABLE = {"C21": _wrap(Calendar, "calendar"), "C22": _wrap(Grid, "grid"), "C23": _wrap(Lang, "lang"), "C34": _wrap(F4, "f4"), "C19": _wrap(NumberInput, "numinput"), "C20": _wrap(NumberFormat, "numformat"), "C09": _wrap(Formula, "formula"), "C29": _wrap(ColAttrs, "colattrs"), "C30": _wrap(StylesFam, "styles"), "C11": _wrap(Tokens, "tokens")}
